@@ -853,6 +853,73 @@ func runSweepGuard(c *core.Ctx) {
 		}
 		c.Check(bad == nil, "retention-closed", del.Pos(), "every iteration of the sweep that keeps a blob does so on the ‘marked’ edge or on the ‘not an index entry’ edge (a keep path without either ends at %s): an index entry kept without having been expanded leaves its config, layers and children unprotected", where)
 	}
+	// (6) every removal of an index entry by the collector is reported to the caller: the block that calls RmDesc (or the
+	//     straight-line blocks after it) feeds the constant true into the boolean the function returns as ‘modified’ —
+	//     the callers save the index only when that result is true
+	{
+		var retBools map[ssa.Value]bool
+		retBools = map[ssa.Value]bool{}
+		an.Instrs(fn, func(in ssa.Instruction) {
+			if ret, ok := in.(*ssa.Return); ok {
+				for _, rv := range ret.Results {
+					if bt, ok := rv.Type().Underlying().(*types.Basic); ok && bt.Kind() == types.Bool {
+						var mark func(v ssa.Value, d int)
+						mark = func(v ssa.Value, d int) {
+							if d > 8 || retBools[v] {
+								return
+							}
+							retBools[v] = true
+							if phi, ok := v.(*ssa.Phi); ok {
+								for _, e := range phi.Edges {
+									mark(e, d+1)
+								}
+							}
+						}
+						mark(rv, 0)
+					}
+				}
+			}
+		})
+		nRm := 0
+		an.Calls(fn, func(call ssa.CallInstruction) {
+			if !an.IsMethod(call, r.TypesPath, "Index", "RmDesc") {
+				return
+			}
+			nRm++
+			// blocks reached from the call's block by unconditional jumps
+			chain := map[*ssa.BasicBlock]bool{call.Block(): true}
+			for b := call.Block(); len(b.Succs) == 1; b = b.Succs[0] {
+				if chain[b.Succs[0]] {
+					break
+				}
+				// stop at a join fed from elsewhere only after recording the edge into it
+				chain[b.Succs[0]] = true
+				if len(b.Succs[0].Preds) > 1 {
+					break
+				}
+			}
+			reported := false
+			for _, b := range fn.Blocks {
+				for _, in := range b.Instrs {
+					phi, ok := in.(*ssa.Phi)
+					if !ok {
+						break
+					}
+					if !retBools[phi] {
+						continue
+					}
+					for i, e := range phi.Edges {
+						if bv, isC := an.ConstBool(e); isC && bv && chain[b.Preds[i]] && (b.Preds[i] == call.Block() || chain[b.Preds[i]]) {
+							reported = true
+						}
+					}
+				}
+			}
+			// also: a plain `return index, true, nil` after the call
+			c.SetTags("exact")
+			c.Check(reported, fmt.Sprintf("mutation-reported:#%d", nRm), call.Pos(), "the removal of an index entry at %s sets the collector's ‘modified’ result: %v — the stores write the index back only when it is true, so an unreported removal leaves index.json listing an entry (and tag) whose blob is gone", c.P.Pos(call.Pos()), reported)
+		})
+	}
 	c.SetTags("exact")
 	if pruneOK {
 		c.Check(pruneCovers, "prune-covers-index", del.Pos(), "the loop that removes index entries without a blob ranges over every entry of the index under collection (the index itself, or a set filled unconditionally for each of its entries): %v — otherwise an entry the policy does not retain and whose blob is gone stays in the index forever", pruneCovers)
